@@ -444,6 +444,98 @@ void h_ev_spec_find_arg(void)
 }
 
 /* ====================================================================================
+ * print_arg, in the form format_region needs (its memory safety on an exact-size payload is plan C18 print_arg
+ * and plan C19 print_arg; here: WHAT is handed to snprintf, observed in the recording stub, and the cursor)
+ * ==================================================================================== */
+#include "ovni.h"
+A5_SPEC_BEGIN
+/* the value of the argument as print_arg must fetch it: little-endian bytes [offset, offset + size) of the payload */
+static uint64_t a5_load(const uint8_t *payload, unsigned long off, unsigned long size)
+{
+	uint64_t v = 0;
+	for (unsigned long b = 0; b < 8; b++)
+		if (b < size)
+			v |= (uint64_t) payload[off + b] << (8 * b);
+	return v;
+}
+/* the recorded print call shows the argument: its bytes of the payload, converted by its declared type */
+static int a5_value_shown(const struct ev_arg *a, const uint8_t *payload)
+{
+	if (a->type == STR)
+		return g_pr.kind == 2 && g_pr.str == (const char *) payload + a->offset;
+	uint64_t v = a5_load(payload, a->offset, a->size);
+	int is_signed = a->type == I8 || a->type == I16 || a->type == I32 || a->type == I64;
+	if (!is_signed)
+		return g_pr.kind == 0 && g_pr.uval == v;
+	/* two's complement value of the low `size` bytes (no narrowing casts: conversion checks are on) */
+	uint64_t sign = a->size == 8 ? 0x8000000000000000ULL : (uint64_t) 1 << (8 * a->size - 1);
+	uint64_t mag = (v & sign) ? (a->size == 8 ? ~v + 1 : ((uint64_t) 1 << (8 * a->size)) - v) : v;
+	int64_t sv = (v & sign) ? (mag == 0x8000000000000000ULL ? INT64_MIN : -(int64_t) mag) : (int64_t) mag;
+	return g_pr.kind == 1 && g_pr.ival == sv;
+}
+static int a5_pa_post(int ret, const struct ev_arg *arg, const char *fmt, const struct cursor *c, const struct emu_ev *ev,
+	char *out0, int len0, unsigned calls0, unsigned err0, unsigned err1)
+{
+	/* one print call, at the output cursor, with the room that is left and the format given */
+	if (!(g_pr.calls == calls0 + 1 && g_pr.s == out0 && g_pr.n == (size_t) len0 && g_pr.ret >= 0))
+		return 1;
+	if (g_pr.f_j != ((g_j >= 0 && g_j < A5_BUF) ? fmt[g_j] : 0) || g_pr.f_j2 != ((g_j2 >= 0 && g_j2 < A5_BUF) ? fmt[g_j2] : 0))
+		return 2;
+	if (!a5_value_shown(arg, (const uint8_t *) ev->payload))
+		return 3;
+	/* accepted exactly when the printed text and its terminator fit */
+	if (!(ret == 0 || ret == -1) || (ret == 0) != (g_pr.ret < len0))
+		return 4;
+	if (ret == 0 && !(c->len == len0 - g_pr.ret && __CPROVER_same_object(c->out, out0) && A5_OFF(c->out) == A5_OFF(out0) + (unsigned long) g_pr.ret))
+		return 5;
+	if (ret != 0 && !(c->len == len0 && c->out == out0 && err1 == err0 + 1))
+		return 6;
+	if (ret == 0 && err1 != err0)
+		return 7;
+	return 0;
+}
+A5_SPEC_END
+#define A5_SIZE_OF_TYPE(t) ((t) == U8 || (t) == I8 ? 1u : (t) == U16 || (t) == I16 ? 2u : (t) == U32 || (t) == I32 ? 4u : \
+	(t) == U64 || (t) == I64 ? 8u : 0u)
+int c_print_arg(struct ev_arg *arg, const char *fmt, struct cursor *c, struct emu_ev *ev)
+/* a compiled argument inside the event's payload (parse_arg; check_payload) */
+__CPROVER_requires(__CPROVER_r_ok(arg, sizeof(*arg)) && (unsigned) arg->type < MAX_TYPE && arg->size == A5_SIZE_OF_TYPE(arg->type))
+__CPROVER_requires(__CPROVER_r_ok(ev, sizeof(*ev)) && ev->payload_size <= 0x7fffffffUL && arg->offset <= ev->payload_size && arg->size <= ev->payload_size - arg->offset)
+__CPROVER_requires((arg->type != STR || arg->offset < ev->payload_size) && (ev->payload_size == 0 || __CPROVER_r_ok(ev->payload, ev->payload_size)))
+__CPROVER_requires(__CPROVER_r_ok(fmt, A5_BUF) && __CPROVER_rw_ok(c, sizeof(*c)) && c->len >= 0 && __CPROVER_w_ok(c->out, (size_t) c->len + 1))
+__CPROVER_requires(DIAG_PRE && g_pr.calls < 1000)
+__CPROVER_assigns(c->out, c->len, DIAG_FRAME, g_pr)
+__CPROVER_assigns(c->len > 0: __CPROVER_object_upto(c->out, (size_t) c->len))
+__CPROVER_ensures(a5_pa_post(RET, arg, fmt, c, ev, OLD(c->out), OLD(c->len), OLD(g_pr.calls), OLD(g_err), g_err) == 0)
+__CPROVER_ensures(g_diag - OLD(g_diag) <= 1 && g_warn == OLD(g_warn))
+__CPROVER_ensures(IMPLIES(RET == 0, __CPROVER_pointer_equals(c->out, OLD(c->out) + g_pr.ret)))
+__CPROVER_ensures(IMPLIES(RET != 0, __CPROVER_pointer_equals(c->out, OLD(c->out))))
+;
+struct emu_ev h_ev;
+struct ev_arg h_arg;
+void h_print_arg(void)
+{
+	struct cursor c;
+	char fmt[A5_BUF];
+	unsigned long outlen = nondet_size_t(), pos = nondet_size_t();
+	__CPROVER_assume(outlen >= 1 && outlen <= 0x7fffffffUL && pos < outlen);
+	char *out = malloc(outlen);
+	__CPROVER_assume(out != NULL);
+	c.in = NULL; c.out = out + pos; c.len = (int) (outlen - 1 - pos);
+	unsigned long psize = nondet_size_t();
+	__CPROVER_assume(psize <= 0x7fffffffUL);
+	uint8_t *pay = psize > 0 ? malloc(psize) : NULL;
+	__CPROVER_assume(psize == 0 || pay != NULL);
+	h_ev.payload = (const union ovni_ev_payload *) pay; h_ev.payload_size = psize;
+	int r = print_arg(&h_arg, fmt, &c, &h_ev);
+	if (r == 0 && h_arg.type == I32 && h_arg.offset == 4 && psize == 8 && g_pr.ival == -2) REACH("i32 at 4 of an 8-byte payload shown as -2");
+	if (r == 0 && h_arg.type == U64 && g_pr.uval == 0xffffffffffffffffULL) REACH("u64 maximum shown");
+	if (r == 0 && h_arg.type == I8 && g_pr.ival == -128) REACH("i8 minimum shown");
+	if (r == 0 && h_arg.type == STR && h_arg.offset == 4) REACH("string at 4 shown");
+	if (r != 0) REACH("no room refused");
+}
+
+/* ====================================================================================
  * format_region:   %%   |   %{name}   |   %<format>{name}      c->in points to the '%'
  * The two parsers and advance_in are used through their contracts above; ev_spec_find_arg and print_arg are
  * the real functions (print_arg's own contracts: plan C18 print_arg, plan C19 print_arg), so that what reaches
@@ -476,15 +568,6 @@ static int a5_named_text(const struct ev_spec *spec, int i, const char *nm, int 
 			return 0;
 	}
 	return 0;
-}
-/* the value of the argument as print_arg must fetch it: little-endian bytes [offset, offset + size) of the payload */
-static uint64_t a5_load(const uint8_t *payload, unsigned long off, unsigned long size)
-{
-	uint64_t v = 0;
-	for (unsigned long b = 0; b < 8; b++)
-		if (b < size)
-			v |= (uint64_t) payload[off + b] << (8 * b);
-	return v;
 }
 /* pre-state: ASSIGNED by the harness function before the call (a ghost pointer that is only assumed equal to
  * c->out does not dereference to the buffer: HOWTO pitfall 1); format_region's contract is never used as a replacement */
@@ -560,28 +643,13 @@ static int a5_fr_post(int ret, const struct ev_spec *spec, const struct cursor *
 		/* the format: '%' + the text between '%' and '{' + NUL, or the default of the argument's type */
 		char ej = r.f > 0 ? (g_j == 0 ? '%' : g_j <= r.f ? a5_at(g_j) : 0) : a5_default_fmt((int) a->type, g_j);
 		char ej2 = r.f > 0 ? (g_j2 == 0 ? '%' : g_j2 <= r.f ? a5_at(g_j2) : 0) : a5_default_fmt((int) a->type, g_j2);
-		if (g_j >= 0 && g_j <= (r.f > 0 ? r.f + 1 : 3) && g_pr.f_j != ej)
+		if (g_j >= 0 && g_j <= (r.f > 0 ? r.f + 1 : (a->type == U64 || a->type == I64) ? 3 : 2) && g_pr.f_j != ej)
 			return 9;
-		if (g_j2 >= 0 && g_j2 <= (r.f > 0 ? r.f + 1 : 3) && g_pr.f_j2 != ej2)
+		if (g_j2 >= 0 && g_j2 <= (r.f > 0 ? r.f + 1 : (a->type == U64 || a->type == I64) ? 3 : 2) && g_pr.f_j2 != ej2)
 			return 10;
 		/* the value: the named argument's bytes of the payload, by its declared type */
-		if (a->type == STR) {
-			if (!(g_pr.kind == 2 && g_pr.str == (const char *) g_payload + a->offset))
-				return 11;
-		} else {
-			uint64_t v = a5_load(g_payload, a->offset, a->size);
-			int is_signed = a->type == I8 || a->type == I16 || a->type == I32 || a->type == I64;
-			if (!is_signed && !(g_pr.kind == 0 && g_pr.uval == v))
-				return 12;
-			if (is_signed) {
-				/* two's complement value of the low `size` bytes (no narrowing casts: conversion checks are on) */
-				uint64_t sign = a->size == 8 ? 0x8000000000000000ULL : (uint64_t) 1 << (8 * a->size - 1);
-				uint64_t mag = (v & sign) ? (a->size == 8 ? ~v + 1 : ((uint64_t) 1 << (8 * a->size)) - v) : v;
-				int64_t sv = (v & sign) ? (mag == 0x8000000000000000ULL ? INT64_MIN : -(int64_t) mag) : (int64_t) mag;
-				if (!(g_pr.kind == 1 && g_pr.ival == sv))
-					return 13;
-			}
-		}
+		if (!a5_value_shown(a, g_payload))
+			return 11;
 		/* accepted: both cursors advanced, over the region and over what was printed */
 		if (ret == 0 && !(c->len == g_len0 - g_pr.ret && A5_OFF(c->in) == (unsigned long) r.end))
 			return 14;
@@ -603,29 +671,48 @@ __CPROVER_assigns(c->in, c->out, c->len, DIAG_FRAME, g_pr)
 __CPROVER_assigns(c->len > 0: __CPROVER_object_upto(c->out, (size_t) c->len))
 __CPROVER_ensures(a5_fr_post(RET, spec, c, OLD(g_err), g_err) == 0)
 ;
-struct emu_ev h_ev;
-int w_ret, w_cls, w_f, w_m, w_idx;
 void h_format_region(void)
 {
 	struct cursor c;
 	unsigned long len = nondet_size_t();
 	__CPROVER_assume(len <= A5_MAXLEN);
+#ifdef A5_X2
+	char inbuf[140]; char *in = inbuf;
+	__CPROVER_assume(len == 139);
+#else
 	char *in = malloc(len + 1);
 	__CPROVER_assume(in != NULL);
+#endif
 	g_txt = in;
 	c.in = in;
 	/* the output buffer: any size, the cursor anywhere in it */
 	unsigned long outlen = nondet_size_t(), pos = nondet_size_t();
 	__CPROVER_assume(outlen >= 1 && outlen <= 0x7fffffffUL && pos < outlen);
+#ifdef A5_E2
+	char outbuf[64]; char *out = outbuf;
+	__CPROVER_assume(outlen <= 64);
+#else
 	char *out = malloc(outlen);
 	__CPROVER_assume(out != NULL);
+#endif
 	c.out = out + pos; c.len = (int) (outlen - 1 - pos);
 	/* the payload: any size */
 	unsigned long psize = nondet_size_t();
 	__CPROVER_assume(psize <= 0x7fffffffUL);
+#ifdef A5_E1
+	uint8_t paybuf[160]; uint8_t *pay = paybuf;
+	__CPROVER_assume(psize <= 160);
+#else
 	uint8_t *pay = psize > 0 ? malloc(psize) : NULL;
 	__CPROVER_assume(psize == 0 || pay != NULL);
+#endif
 	h_ev.payload = (const union ovni_ev_payload *) pay; h_ev.payload_size = psize;
+#ifdef A5_X1
+	__CPROVER_assume(h_spec.nargs == 0);
+#endif
+#ifdef A5_X3
+	__CPROVER_assume(in[1] == '{' || in[1] == '%');
+#endif
 	g_len0 = c.len; g_out0 = c.out; g_payload = pay; g_psize = psize;
 	int r = format_region(&h_spec, &c, &h_ev);
 	if (r == 0 && in[1] == '%') REACH("%% accepted");
